@@ -1,5 +1,8 @@
 import BstreamVerif.Props.C13
 import BstreamVerif.Props.C09
+import BstreamVerif.Props.C01
+import BstreamVerif.Lemmas.Seam
+import BstreamVerif.Lemmas.StepCheckSound
 /-!
 # C07 — file-to-live handoff is seamless: exactly-once, in order, no dropped undo
 
@@ -164,5 +167,183 @@ theorem simLoop_prefix (cfg : SCfg) (fuel : Nat) (m : Sim) (hc : LiveClean m) :
     · obtain ⟨h1, h2⟩ := step1_prefix cfg m hc
       obtain ⟨h3, h4⟩ := ih (step1 cfg m) h2
       exact ⟨List.IsPrefix.trans h1 h3, h4⟩
+
+/-! ### consumer level: the handoff by block number is seamless -/
+section Seamless
+open BstreamVerif.ForkDB BstreamVerif.Seam
+
+theorem dropWhile_append_of_mem {α} (p : α → Bool) (K R : List α) (h : ∃ k ∈ K, p k = false) :
+    (K ++ R).dropWhile p = K.dropWhile p ++ R := by
+  induction K with
+  | nil => obtain ⟨k, hk, _⟩ := h; cases hk
+  | cons a t ih =>
+    by_cases ha : p a = true
+    · rw [List.cons_append, List.dropWhile_cons_of_pos ha, List.dropWhile_cons_of_pos ha]
+      apply ih
+      obtain ⟨k, hk, hp⟩ := h
+      rcases List.mem_cons.mp hk with rfl | hk
+      · rw [ha] at hp; cases hp
+      · exact ⟨k, hk, hp⟩
+    · rw [List.cons_append, List.dropWhile_cons_of_neg ha, List.dropWhile_cons_of_neg ha]; rfl
+
+theorem dropWhile_ne_nil_of_mem {α} (p : α → Bool) (K : List α) (h : ∃ k ∈ K, p k = false) : K.dropWhile p ≠ [] := by
+  induction K with
+  | nil => obtain ⟨k, hk, _⟩ := h; cases hk
+  | cons a t ih =>
+    by_cases ha : p a = true
+    · rw [List.dropWhile_cons_of_pos ha]
+      apply ih
+      obtain ⟨k, hk, hp⟩ := h
+      rcases List.mem_cons.mp hk with rfl | hk
+      · rw [ha] at hp; cases hp
+      · exact ⟨k, hk, hp⟩
+    · rw [List.dropWhile_cons_of_neg ha]; simp
+
+theorem getLast?_dropWhile {α} (p : α → Bool) (K : List α) (h : K.dropWhile p ≠ []) :
+    (K.dropWhile p).getLast? = K.getLast? := by
+  induction K with
+  | nil => simp at h
+  | cons a t ih =>
+    by_cases ha : p a = true
+    · rw [List.dropWhile_cons_of_pos ha] at h ⊢
+      rw [ih h]
+      cases t with
+      | nil => simp at h
+      | cons b r => simp [List.getLast?_cons_cons]
+    · rw [List.dropWhile_cons_of_neg ha]
+
+/-- **File-to-live handoff by block number, at consumer level.** The stream has delivered the merged blocks `fb`
+    (parent-linked from the block `r0` the consumer rests on, each new and irreversible at once); the hub — in any state
+    satisfying the forkable invariant, with pending chain `P` — serves the request for block `n` (at or below its LIB,
+    retained on its chain), and the first block of its answer is the child of the last file block ("files and hub
+    cover one chain"). Then the file deliveries, the hub's burst and **everything the hub delivers afterwards**, for any
+    later history of blocks of one consistent block tree, form one sequence that the push/pop consumer accepts: every
+    New extends its tip, every Undo pops it, every Irreversible announces its oldest pending block — and after the burst
+    the consumer stands exactly where the hub's own consumer stands (`⟨LIB, P⟩`), so nothing is missing and nothing is
+    delivered twice across the seam. -/
+theorem handoff_by_number_is_seamless (cfg : Forkable.Config) (hnew : cfg.matches .new = true)
+    (hundo : cfg.matches .undo = true) (hirr : cfg.matches .irreversible = true)
+    (U : Id → Option Blk) (hU : UOK U) (F : List Id) (s : FState) (P : List Id) (hI : Inv s P) (hJ : Inv2 U F s.db)
+    (h : Blk) (seg : List Entry) (hs : headSegment s = some (h, seg))
+    (hnum : ∀ e, s.db.find h.id = some e → e.blk.num = h.num)
+    (n : Nat) (hn : n ≤ s.db.libRef.num) (hex : ∃ e ∈ seg, e.blk.num = n)
+    (r0 : Id) (fb : List Blk) (hfile : linkedBlks r0 fb)
+    (hjoin : ∀ e, (seg.dropWhile (fun e => e.blk.num != n)).head? = some e → e.blk.parent = topOf r0 (fb.map (·.id)))
+    (hist : List Blk) (hin : ∀ b ∈ hist, U b.id = some b) (hL : Props.C01.LibHistOK cfg s hist) :
+    ∃ burst P', blocksFromNum s n = some burst ∧
+      (⟨r0, []⟩ : CS).run (fb.map (Resolver.fileEv .newIrreversible) ++ burst) = some ⟨s.db.libRef.id, P⟩ ∧
+      (⟨r0, []⟩ : CS).run (fb.map (Resolver.fileEv .newIrreversible) ++ burst ++ (runHistory cfg s hist).2) =
+        some ⟨(runHistory cfg s hist).1.db.libRef.id, P'⟩ ∧
+      Inv (runHistory cfg s hist).1 P' := by
+  obtain ⟨K, PE, hseg, hP, hPE, hK, hlast⟩ := headSegment_shape s P hI h seg hs hnum
+  let p : Entry → Bool := fun e => e.blk.num != n
+  -- the requested block is among the retained final blocks
+  have hinK : ∃ k ∈ K, p k = false := by
+    obtain ⟨e, he, hen⟩ := hex
+    rw [hseg] at he
+    rcases List.mem_append.mp he with he | he
+    · exact ⟨e, he, by simp [p, hen]⟩
+    · exact absurd (by omega : e.blk.num ≤ s.db.libRef.num) (hPE e he)
+  have hdw : seg.dropWhile p = K.dropWhile p ++ PE := by rw [hseg]; exact dropWhile_append_of_mem p K PE hinK
+  have hAne : K.dropWhile p ≠ [] := dropWhile_ne_nil_of_mem p K hinK
+  have hA : ∀ e ∈ K.dropWhile p, e.blk.num ≤ s.db.libRef.num :=
+    fun e he => hK e ((List.dropWhile_sublist p).subset he)
+  -- the burst
+  have hburst : blocksFromNum s n = some ((K.dropWhile p ++ PE).map (Props.C09.fromNumEv s h)) := by
+    rw [Props.C09.fromNum_spec s n h seg hs]
+    have : seg.dropWhile (fun e => e.blk.num != n) = K.dropWhile p ++ PE := hdw
+    rw [this]
+    have hne : (K.dropWhile p ++ PE).isEmpty = false := by
+      cases hd : K.dropWhile p with
+      | nil => exact absurd hd hAne
+      | cons a t => rfl
+    rw [hne]; rfl
+  -- it is parent-linked from the last file block
+  have hlinked : linkedBlks (topOf r0 (fb.map (·.id))) ((K.dropWhile p ++ PE).map (·.blk)) := by
+    rw [← hdw]
+    apply linkedBlks_of_linkedE
+    · exact linkedE_dropWhile p seg (headSegment_linked s h seg hs)
+    · exact hjoin
+  -- the retained final blocks end with the LIB block
+  have htopA : topOf (topOf r0 (fb.map (·.id))) ((K.dropWhile p).map (·.blk.id)) = s.db.libRef.id := by
+    rcases hlast with hnil | ⟨eL, hg, hid⟩
+    · rw [hnil] at hAne; simp at hAne
+    · unfold topOf
+      rw [List.getLast?_map, getLast?_dropWhile p K hAne, hg]
+      simpa using hid
+  have hrun1 : (⟨r0, []⟩ : CS).run (fb.map (Resolver.fileEv .newIrreversible) ++
+      (K.dropWhile p ++ PE).map (Props.C09.fromNumEv s h)) = some ⟨s.db.libRef.id, P⟩ := by
+    rw [run_append, run_fileEvs r0 fb hfile]
+    simp only [Option.bind_some]
+    rw [run_burst s h _ _ PE hA hPE hlinked, htopA, hP]
+  have hsent : s.lastSent.isSome = true := by
+    unfold headSegment at hs
+    split at hs
+    · cases hs
+    · cases hl : s.lastSent with
+      | none => rw [hl] at hs; cases hs
+      | some l => rfl
+  obtain ⟨P', hrun2, hI'⟩ := Props.C01.history_discipline_consistent cfg hnew hundo hirr U hU hist F s P hI hJ hin hL (Or.inr hsent)
+  refine ⟨_, P', hburst, hrun1, ?_, hI'⟩
+  rw [run_append, hrun1]
+  exact hrun2
+
+end Seamless
+
+/-! Non-vacuity of `handoff_by_number_is_seamless`: a hub (known LIB `r`, ten final blocks kept) that has received
+    a2…a5 stands on LIB a3 with a4, a5 pending and still holds a2, a3. A stream that read a2 from the merged files asks
+    for block 3; afterwards the hub reorganises to b5, b6, b7 (undo a5) and moves its LIB to a4. Every hypothesis of the
+    theorem is discharged by kernel evaluation or by the soundness lemmas of the executable checks. -/
+section Example
+private def cfgK : Forkable.Config :=
+  { root := some (.exclusive ⟨"r", 1⟩), hold := false, kept := 10, allTrigger := false, filter := 51, fsb := 0 }
+private def uK : List Blk :=
+  [⟨"a2", "r", 2, 1⟩, ⟨"a3", "a2", 3, 1⟩, ⟨"a4", "a3", 4, 2⟩, ⟨"a5", "a4", 5, 3⟩,
+   ⟨"b5", "a4", 5, 3⟩, ⟨"b6", "b5", 6, 3⟩, ⟨"b7", "b6", 7, 4⟩]
+private def hK1 : List Blk := [⟨"a2", "r", 2, 1⟩, ⟨"a3", "a2", 3, 1⟩, ⟨"a4", "a3", 4, 2⟩, ⟨"a5", "a4", 5, 3⟩]
+private def hK2 : List Blk := [⟨"b5", "a4", 5, 3⟩, ⟨"b6", "b5", 6, 3⟩, ⟨"b7", "b6", 7, 4⟩]
+private def sK : FState := (runHistory cfgK (Forkable.init cfgK) hK1).1
+private def fbK : List Blk := [⟨"a2", "r", 2, 1⟩]
+
+example : ∃ burst P P', blocksFromNum sK 3 = some burst ∧
+    (⟨"r", []⟩ : CS).run (fbK.map (Resolver.fileEv .newIrreversible) ++ burst) = some ⟨"a3", P⟩ ∧
+    (⟨"r", []⟩ : CS).run (fbK.map (Resolver.fileEv .newIrreversible) ++ burst ++ (runHistory cfgK sK hK2).2) =
+      some ⟨(runHistory cfgK sK hK2).1.db.libRef.id, P'⟩ := by
+  have hU : UOK (ofList uK) := uokB_sound uK (by decide)
+  have hI0 := Props.C01.init_inv cfgK ⟨"r", 1⟩ (by decide) rfl
+  have hJ0 : Inv2 (ofList uK) ["r"] (Forkable.init cfgK).db := by
+    apply Props.C01.init_inv2 cfgK ⟨"r", 1⟩ rfl
+    · intro b hb hp
+      have hm := (ofList_mem uK _ b hb).1
+      exact (by decide : ∀ x ∈ uK, x.parent = "r" → 1 < x.num) b hm hp
+    · intro b hb hid
+      have hm := (ofList_mem uK _ b hb).1
+      exact (by decide : ∀ x ∈ uK, x.id = "r" → x.num = 1) b hm hid
+  have hin1 : ∀ b ∈ hK1, ofList uK b.id = some b := fun b hb =>
+    ofList_of_mem uK (by decide) b ((by decide : ∀ x ∈ hK1, x ∈ uK) b hb)
+  have hin2 : ∀ b ∈ hK2, ofList uK b.id = some b := fun b hb =>
+    ofList_of_mem uK (by decide) b ((by decide : ∀ x ∈ hK2, x ∈ uK) b hb)
+  obtain ⟨P, F, hI, hJ⟩ := Props.C01.history_invariants_consistent cfgK (by decide) (by decide) (by decide)
+    (ofList uK) hU hK1 ["r"] (Forkable.init cfgK) [] hI0 hJ0 hin1 (libHistB_sound cfgK hK1 _ (by decide)) (Or.inl rfl)
+  have hs : headSegment sK = some (⟨"a5", "a4", 5, 3⟩,
+      [⟨⟨"a2", "r", 2, 1⟩, true⟩, ⟨⟨"a3", "a2", 3, 1⟩, true⟩, ⟨⟨"a4", "a3", 4, 2⟩, true⟩, ⟨⟨"a5", "a4", 5, 3⟩, true⟩]) := by decide
+  obtain ⟨burst, P', hb, h1, h2, _⟩ := handoff_by_number_is_seamless cfgK (by decide) (by decide) (by decide)
+    (ofList uK) hU F sK P hI hJ _ _ hs
+    (by intro e he
+        have hd : (sK.db.find "a5").map (·.blk.num) = some 5 := by decide
+        rw [he] at hd; simpa using hd)
+    3 (by decide) (by decide) "r" fbK ⟨rfl, trivial⟩ (by decide) hK2 hin2 (libHistB_sound cfgK hK2 _ (by decide))
+  exact ⟨burst, P, P', hb, h1, h2⟩
+
+/-- what the consumer of that example sees, computed: a2 from the files; a3 new+irreversible, a4, a5 from the hub's
+    burst; then undo a5, new b5, b6, b7 and a4 announced final — ending on LIB a4 holding b5, b6, b7 -/
+example :
+    (((fbK.map (Resolver.fileEv .newIrreversible) ++ ((blocksFromNum sK 3).getD []) ++ (runHistory cfgK sK hK2).2).map
+        (fun e => (e.step, e.blk.id))) =
+      [(.newIrreversible, "a2"), (.newIrreversible, "a3"), (.new, "a4"), (.new, "a5"),
+       (.undo, "a5"), (.new, "b5"), (.new, "b6"), (.new, "b7"), (.irreversible, "a4")]) ∧
+    (⟨"r", []⟩ : CS).run (fbK.map (Resolver.fileEv .newIrreversible) ++ ((blocksFromNum sK 3).getD []) ++
+        (runHistory cfgK sK hK2).2) = some ⟨"a4", ["b5", "b6", "b7"]⟩ := by decide
+end Example
 
 end BstreamVerif.Props.C07
